@@ -188,6 +188,22 @@ def check_formulas(part, chunks):
         want = ref_formula(zs)
         if got != want:
             part.fail("formula:%d" % len(zs), "chemical_formula(%s) = %r, expected %r" % ([ELEMENTS[z - 1][0] for z in zs], got, want), {"kind": "formula", "zs": list(zs)})
+        # the subscript variant and a list of symbol strings count every atom once as well
+        try:
+            sub = chemical_formula(els, subscript=True)
+            plain = "".join(chr(ord("0") + ord(ch) - 0x2080) if 0x2080 <= ord(ch) <= 0x2089 else ch for ch in sub)
+            if plain != want:
+                part.fail("formula-subscript:%d" % len(zs), "chemical_formula(..., subscript=True) = %r, expected %r with subscript digits" % (sub, want), {"kind": "formula", "zs": list(zs)})
+            syms = [ELEMENTS[z - 1][0] for z in zs]
+            fs = chemical_formula(syms)
+            cnt = {}
+            for sy in syms:
+                cnt[sy] = cnt.get(sy, 0) + 1
+            wants = "".join(k + (str(cnt[k]) if cnt[k] > 1 else "") for k in sorted(cnt))
+            if fs != wants:
+                part.fail("formula-strings:%d" % len(zs), "chemical_formula(%s) = %r, expected %r (every symbol counted once)" % (syms, fs, wants), {"kind": "formula", "zs": list(zs)})
+        except Exception as ex:
+            part.fail("formula-variant-raise", "chemical_formula variant raised %r for %s" % (ex, zs), {"kind": "formula", "zs": list(zs)})
         part.outcome(("formula", len(set(zs)), len(zs)))
 
 
